@@ -269,6 +269,17 @@ class ndarray:
         return ndarray._new(cells, self._shape if shape is None else shape, self.dtype if dt is None else dt, scalar)
 
     # ---- basic attributes
+    @property
+    def flags(self):
+        import types
+        base = self._idx[0] if self._idx else 0
+        c = self._idx == list(range(base, base + _b.len(self._idx)))
+        fi = _np.array(self._idx, dtype=_np.int64).reshape(self._shape).T.reshape(-1).tolist() if self._idx else []
+        f = fi == list(range(base, base + _b.len(fi)))
+        own = c and _b.len(self._store) == _b.len(self._idx)
+        return types.SimpleNamespace(writeable=True, c_contiguous=c, f_contiguous=f, owndata=own, contiguous=c, forc=c or f, fnc=f and not c,
+                                     aligned=True, writebackifcopy=False)
+
     shape = property(lambda s: s._shape)
     ndim = property(lambda s: _b.len(s._shape))
     size = property(lambda s: _b.len(s._idx))
@@ -379,6 +390,8 @@ class ndarray:
     # ---- conversion
     def astype(self, t, copy=True, **kw):
         dt = as_dtype(t)
+        if not copy and dt == self.dtype and not self._scalar:
+            return self                      # (NumPy hands back the array itself: no new buffer)
         if self._concrete():
             return wrap(self._real().astype(dt))
         return self._like([cast_cell(c, dt, self.dtype) for c in self._cells()], dt=dt, scalar=self._scalar)
